@@ -1,4 +1,5 @@
-P('C16', shards=16, fuzz=[('FuzzEscape', 60)],
+P('C16', shards=16,
+  passes=[{'race': False, 'run': '^(TestRegression|TestExhaustive|TestGenerated)$'}, {'race': True, 'run': '^TestConcurrentCallers$'}], fuzz=[('FuzzEscape', 60)],
   technique='property-based testing (rapid) + exhaustive enumeration over the shell metacharacters + native fuzzing; oracles: POSIX word-reader model and differential runs through real dash and bash',
   text='Every generated string is escaped by both functions; an independent reader of POSIX quoting must see exactly one literal word with the input as value, '
        'and the real dash and bash must receive exactly one argument equal to the input (batched scripts, mismatches bisected to one input). '
